@@ -16,6 +16,11 @@ stream/checkpoint.go Load      l.120-126 metadata.Load error → panic(err)   (c
                                          GetFailOverLogs error → panic(err)
                                l.173-197 doc.Checkpoint.SeqNo > latestSeqNo → panic("checkpoint seqNo bigger …")
 stream/stream.go               openAllStreams l.348-364: one goroutine per vBucket, OpenStream error → panic(err)
+                               listenEnd l.190-219: an end with ErrSocketClosed / ErrDCPBackfillFailed / ErrDCPStreamStateChanged /
+                                         ErrDCPStreamTooSlow / ErrDCPStreamDisconnected → `go s.reopenStream(vbID)` – whatever
+                                         `s.open` says, i.e. also while `Open` is still inside `openAllStreams`
+                               reopenStream l.168-188: `openStream(vbID)` (same offset map entry, same observer) up to 5 times,
+                                         1 s apart; the 5th failure → panic(err)
 
 Every one of these panics is raised in a goroutine the caller of `Start` does not
 own (errgroup / `go func` / concurrent-swiss-map's Range goroutine / openAllStreams),
@@ -24,6 +29,12 @@ or in `Start` itself: the process terminates.  That is the fail-stop; `Exit.fail
 Finding F7 enters here: `client.GetVBucketSeqNos` drops the callback's error
 (client.go l.560-575), so on a server error status `Load` sees an EMPTY seqno map
 and no error (`SeqAnswer.errSwallowed`): every vBucket's high seqno reads as 0.
+
+A PARTIAL answer (`SeqAnswer.missing`: status success, but no entry for some assigned
+vBucket – e.g. one that is active on no node at that moment) is no error for the client:
+`seqNoMap.Load(vbID)` of the missing key yields (0, false) and both branches of `Load`
+drop the flag (`latestSeqNo, _ :=` l.141 / l.175).  The missing vBucket therefore reads
+as high seqno 0: a stored seqno > 0 panics, none / 0 starts from 0.
 Core Lean only.
 -/
 namespace GoDcp.Startup
@@ -34,6 +45,7 @@ inductive SeqAnswer
   | ok                 -- the server's high seqnos
   | errPropagated      -- error status, handed back by the client (the repaired client)
   | errSwallowed       -- error status, dropped by the client: (empty map, nil)   [F7, the code as it is]
+  | missing (vbs : List Vb)       -- PARTIAL answer: status success, no entry for these vBuckets
   deriving DecidableEq, Repr
 
 structure Case where
@@ -50,6 +62,11 @@ structure Case where
   flogErr : List Vb := []
   /-- vBuckets whose DCP_STREAM_REQ is answered with an error status (not ROLLBACK) -/
   openErr : List Vb := []
+  /-- vBuckets whose accepted stream the server ends with one of the re-openable statuses of
+      listenEnd l.208-212 (during `openAllStreams` or afterwards: the code does not distinguish) -/
+  ended : List Vb := []
+  /-- vBuckets whose every LATER stream request (the re-open attempts) is answered with an error status -/
+  reopenErr : List Vb := []
   deriving Repr
 
 inductive Exit
@@ -69,6 +86,7 @@ def knownMembership (t : String) : Bool :=
 def seenState (c : Case) : St :=
   match c.seq with
   | .errSwallowed => { c.st with high := [] }
+  | .missing vbs => { c.st with high := c.st.high.filter fun p => !vbs.contains p.1 }
   | _ => c.st
 
 /-- `!exist && AutoReset == "latest"` (checkpoint.go l.138) -/
@@ -86,7 +104,27 @@ def start (c : Case) : Exit :=
       | none => .fail "checkpoint-ahead"
       | some (offs, _, _) =>
         if offs.any (fun p => c.openErr.contains p.1) then .fail "open-error"
+        -- reopenStream: the ended stream is requested again; all 5 attempts refused → panic(err)
+        else if offs.any (fun p => c.ended.contains p.1 && c.reopenErr.contains p.1) then .fail "reopen-gave-up"
         else .running offs
+
+/-- reopenStream l.169: `retry := 5` -/
+def reopenAttempts : Nat := 5
+
+/-- the second round of stream requests of a running session: every ended vBucket is requested again,
+    with the entry of the SAME offset map (`openStream` l.336-345; nothing was delivered in between) -/
+def reRequests (c : Case) (offs : List (Vb × Offset)) : List (Vb × Offset) :=
+  offs.filter fun p => c.ended.contains p.1
+
+/-- accepted stream requests of a running session for `vb` (first round + re-open) -/
+def requestsOf (c : Case) (offs : List (Vb × Offset)) (vb : Vb) : Nat :=
+  (offs.filter fun p => p.1 == vb).length + ((reRequests c offs).filter fun p => p.1 == vb).length
+
+/-- STREAM_ENDs the server pushed for `vb` -/
+def endsOf (c : Case) (vb : Vb) : Nat := if c.ended.contains vb then 1 else 0
+
+/-- streams of `vb` that are still open on the server: accepted − ended -/
+def liveStreams (c : Case) (offs : List (Vb × Offset)) (vb : Vb) : Nat := requestsOf c offs vb - endsOf c vb
 
 /-- can the consumer see an event before the process stops?  `stream.Open` creates every observer
     (stream.go l.236-246) and `openAllStreams` then opens the vBuckets concurrently, one goroutine each;
@@ -100,5 +138,12 @@ def deliversBeforeStop (c : Case) (lateErr traffic : Bool) : Bool :=
 
 /-- the true high seqno of the server (whatever the client made of the answer) -/
 def trueHigh (c : Case) (vb : Vb) : Nat := (c.st.high.get? vb).getD 0
+
+/-- the high seqno the server REPORTED to this client: nothing (= 0, the client's reading) for a vBucket
+    left out of a partial answer, the true one otherwise -/
+def reportedHigh (c : Case) (vb : Vb) : Nat :=
+  match c.seq with
+  | .missing vbs => if vbs.contains vb then 0 else trueHigh c vb
+  | _ => trueHigh c vb
 
 end GoDcp.Startup
